@@ -19,6 +19,10 @@ def status():
                 names.append(n + (' (frame)' if x.get('contract') == 'frame-only' else ''))
             elif str(x.get('tier', '')).startswith('assumed'):
                 names.append(n + ' (assumed boundary)')
+            elif str(x.get('tier', '')).startswith('B'):
+                names.append(n + ' (bounded contract [S])')
+            elif 'thorough tier only' in str(x.get('tier', '')):
+                names.append(n + ' (proved in the thorough tier)')
             else:
                 names.append(n + ' (UNDECIDED)')
         rows.append('| %s | %s | %s | %s/%s | %s | %s | %s | %s |' % (
